@@ -453,7 +453,7 @@ func (o *oracleC09) invariant(w *World, s rnsSnap, where string) {
 		sum = sum.Add(c...)
 	}
 	mod := s.bal[moduleAddr(rnstypes.ModuleName)]
-	if !mod.IsEqual(sum) {
+	if !coinsEq(mod, sum) {
 		w.Violate("C09:escrow≠bids:"+where, "name-service module account holds %s, open bids total %s", mod, sum)
 	}
 }
@@ -507,7 +507,7 @@ func (o *oracleC09) AfterStep(w *World, st *Step, msgs []sdk.Msg, res *abci.Resp
 		cur := o.escrow[key]
 		cur = cur.Add(down...)
 		if !up.IsZero() {
-			if !up.IsAllLTE(cur) {
+			if !coinsLTE(up, cur) {
 				w.Violate("C09:bid-refund>escrow", "re-bid refunded %s, escrowed %s", up, cur)
 			} else {
 				cur = cur.Sub(up)
@@ -522,7 +522,7 @@ func (o *oracleC09) AfterStep(w *World, st *Step, msgs []sdk.Msg, res *abci.Resp
 	case *rnstypes.MsgCancelBid:
 		key := canonAddr(m.Creator) + target
 		up, down := coinsDelta(o.pre.bal, post.bal, canonAddr(m.Creator))
-		if !down.IsZero() || !up.IsEqual(o.escrow[key]) {
+		if !down.IsZero() || !coinsEq(up, o.escrow[key]) {
 			w.Violate("C09:cancel-refund≠escrow", "cancelling the bid on %s returned %s to %s, it had escrowed %s", target, up, m.Creator, o.escrow[key])
 		}
 		if _, still := post.bids[key]; still {
@@ -533,7 +533,7 @@ func (o *oracleC09) AfterStep(w *World, st *Step, msgs []sdk.Msg, res *abci.Resp
 	case *rnstypes.MsgAcceptBid:
 		key := canonAddr(m.From) + target
 		up, _ := coinsDelta(o.pre.bal, post.bal, canonAddr(m.Creator))
-		if !up.IsEqual(o.escrow[key]) {
+		if !coinsEq(up, o.escrow[key]) {
 			w.Violate("C09:accept-pay≠bid", "accepting the bid of %s on %s paid the owner %s, escrowed %s", m.From, target, up, o.escrow[key])
 		}
 		if _, still := post.bids[key]; still {
@@ -542,7 +542,7 @@ func (o *oracleC09) AfterStep(w *World, st *Step, msgs []sdk.Msg, res *abci.Resp
 		delete(o.escrow, key)
 		w.Probe("accept_ok")
 	case *rnstypes.MsgRegister, *rnstypes.MsgRegisterName, *rnstypes.MsgBuy:
-		if !o.pre.bal[modAddr].IsEqual(post.bal[modAddr]) {
+		if !coinsEq(o.pre.bal[modAddr], post.bal[modAddr]) {
 			which := "register"
 			if _, ok := m.(*rnstypes.MsgBuy); ok {
 				which = "buy"
@@ -551,7 +551,7 @@ func (o *oracleC09) AfterStep(w *World, st *Step, msgs []sdk.Msg, res *abci.Resp
 		}
 		w.Probe("passthrough_ok")
 	default:
-		if !o.pre.bal[modAddr].IsEqual(post.bal[modAddr]) {
+		if !coinsEq(o.pre.bal[modAddr], post.bal[modAddr]) {
 			w.Violate("C09:module-moved:"+kind, "%s changed the module balance", kind)
 		}
 	}
@@ -677,4 +677,34 @@ func init() {
 	register(&Property{ID: "C16", NewGen: func() Generator { return &genRns{} }, NewOracle: func() Oracle { return &oracleC16{} },
 		Runs: map[string]int{"quick": 500, "thorough": 15000}, Required: []string{"register_ok:new", "register_ok:live-same", "register_attempt:live-other", "register_ok:expired-other", "register_ok:expired-same"},
 		Rule: rule + "non-trivial = at least one registration succeeded and was judged; distinct = distinct (message kind, outcome) sequences"})
+}
+
+// coinsEq / coinsLTE compare coin sets denomination by denomination (sdk.Coins.IsEqual panics
+// when the two sets hold different denominations).
+func coinsEq(a, b sdk.Coins) bool {
+	for _, dn := range []string{denom, denom2} {
+		if !a.AmountOf(dn).Equal(b.AmountOf(dn)) {
+			return false
+		}
+	}
+	for _, c := range a {
+		if !b.AmountOf(c.Denom).Equal(c.Amount) {
+			return false
+		}
+	}
+	for _, c := range b {
+		if !a.AmountOf(c.Denom).Equal(c.Amount) {
+			return false
+		}
+	}
+	return true
+}
+
+func coinsLTE(a, b sdk.Coins) bool {
+	for _, c := range a {
+		if c.Amount.GT(b.AmountOf(c.Denom)) {
+			return false
+		}
+	}
+	return true
 }
